@@ -47,6 +47,7 @@ type faultPlan struct {
 	NVictims int    // per arming
 	ArmedAt  string         `json:",omitempty"` // run time: step kinds at which victims were chosen
 	Script   map[string]int `json:",omitempty"` // run time: victim oid -> number of faulty answers scripted
+	TailOnly bool           `json:",omitempty"` // only the last operation (fetch --refetch) meets the faults; nothing else of the scenario is changed
 	armings  int
 }
 
